@@ -116,6 +116,55 @@ func runOneMutant(id, repo, verif string) int {
 	return 2
 }
 
+// mutantSummary runs the suite and returns counts and the result lines.
+func mutantSummary(prop, repo, verif string) (caught, silent, skipped, bad int, lines []string) {
+	ms, err := loadMutants(verif)
+	if err != nil {
+		return 0, 0, 0, 1, []string{err.Error()}
+	}
+	self, _ := os.Executable()
+	var sel []Mutant
+	for _, m := range ms {
+		if m.Prop == prop {
+			sel = append(sel, m)
+		}
+	}
+	out := make([]string, len(sel))
+	sem := make(chan struct{}, 6)
+	var wg sync.WaitGroup
+	for i, m := range sel {
+		wg.Add(1)
+		go func(i int, m Mutant) {
+			defer wg.Done()
+			sem <- struct{}{}
+			defer func() { <-sem }()
+			b, _ := exec.Command(self, "mutants", "-one", m.ID, "-repo", repo, "-verif", verif).CombinedOutput()
+			for _, l := range strings.Split(string(b), "\n") {
+				if strings.HasPrefix(l, "MUTANT-RESULT") {
+					if len(l) > 240 {
+						l = l[:240]
+					}
+					out[i] = l
+				}
+			}
+		}(i, m)
+	}
+	wg.Wait()
+	for _, l := range out {
+		switch {
+		case strings.Contains(l, " caught "):
+			caught++
+		case strings.Contains(l, " silent-as-expected"):
+			silent++
+		case strings.Contains(l, " skipped "):
+			skipped++
+		default:
+			bad++
+		}
+	}
+	return caught, silent, skipped, bad, out
+}
+
 // runMutants runs every mutant of the property, one process each, up to 6 in parallel.
 func runMutants(prop, repo, verif string, verbose bool) int {
 	ms, err := loadMutants(verif)
